@@ -219,6 +219,11 @@ def check (pid : String) (j : Json) : Except String Verdict := do
       evicts := evicts ++ [(idx, n)]
       r := r.step V tn (.evict n) s!"evict {n}"
     | "end" => pure ()
+    | "stuck" =>
+      let what := jStrD e "what" ""
+      r := r.fail s!"stuck: {what}; in the model every party can always take its next step (locks are given back)"
+      return { nontrivial := true, mismatch := r.mismatch
+               specfail := some s!"{if pid = "C07" then "C07.deadlock_free" else if pid = "C06" then "C06.only_that_caller" else "C05.bounded_time"}: {what}: a lock is never given back - every later lookup, update and eviction hangs behind it" }
     | x => throw s!"trace entry {x}"
   -- ---- specs, on the trace alone ----
   let mut sf : Option String := none
